@@ -32,10 +32,7 @@ class Worker:
         return self.p.poll() is None
 
     def kill(self):
-        try:
-            self.p.kill(); self.p.wait(5)
-        except Exception:
-            pass
+        lib.stop_proc(self.p)
 
 
 def run_cases(cases, nproc=12):
